@@ -12,10 +12,10 @@ mod c04s;
 mod c02;
 #[cfg(feature = "c03")]
 mod c03;
-#[cfg(feature = "c05")]
-mod c05;
 #[cfg(feature = "c06")]
 mod c06;
+#[cfg(feature = "c06s")]
+mod c06s;
 #[cfg(feature = "c08")]
 mod c08;
 #[cfg(feature = "c09")]
@@ -68,6 +68,8 @@ fn gen(prop: &str, seed: u64, thorough: bool, count: Option<usize>) -> Vec<Value
         "C06" => for i in 0..n(200, 3000) { let mut rr = r.fork(); out.push(gen_store::gen_c06(&mut rr, i as u64, thorough)); },
         #[cfg(feature = "c06")]
         "C06K" => out = c06::gen(&mut r, thorough, count),
+        #[cfg(feature = "c06s")]
+        "C06S" => out = c06s::gen(&mut r, thorough, count),
         "C07" => for i in 0..n(200, 4000) { let mut rr = r.fork(); out.push(gen_store::gen_c07(&mut rr, i as u64, thorough)); },
         "C16" => for i in 0..n(120, 1500) { let mut rr = r.fork(); out.push(gen_store::gen_c16(&mut rr, i as u64, page_size(), thorough)); },
         "C17" => for i in 0..n(300, 4000) { let mut rr = r.fork(); out.push(gen_store::gen_c17(&mut rr, i as u64, thorough)); },
@@ -77,8 +79,6 @@ fn gen(prop: &str, seed: u64, thorough: bool, count: Option<usize>) -> Vec<Value
         "C02" => out = c02::gen(&mut r, thorough, count),
         #[cfg(feature = "c03")]
         "C03" => out = c03::gen(&mut r, thorough, count),
-        #[cfg(feature = "c05")]
-        "C05" => out = c05::gen(&mut r, thorough, count),
         #[cfg(feature = "c08")]
         "C08" => out = c08::gen(&mut r, thorough, count),
         #[cfg(feature = "c09")]
@@ -116,10 +116,10 @@ fn exec_case(case: &Value, tag: &str) -> Value {
         k if k == "c02" || k.starts_with("c02:") => c02::exec(case, tag),
         #[cfg(feature = "c03")]
         k if k == "c03" || k.starts_with("c03:") => c03::exec(case, tag),
-        #[cfg(feature = "c05")]
-        k if k == "c05" || k.starts_with("c05:") => c05::exec(case, tag),
         #[cfg(feature = "c06")]
         k if k == "c06" || k.starts_with("c06:") => c06::exec(case, tag),
+        #[cfg(feature = "c06s")]
+        k if k == "c06s" || k.starts_with("c06s:") => c06s::exec(case, tag),
         #[cfg(feature = "c08")]
         k if k == "c08" || k.starts_with("c08:") => c08::exec(case, tag),
         #[cfg(feature = "c09")]
@@ -161,6 +161,8 @@ fn main() {
     match args[1].as_str() {
         #[cfg(feature = "c06")]
         "child-c06" => c06::child_main(&args[2..]),
+        #[cfg(feature = "c06s")]
+        "child-c06s" => c06s::child_main(&args[2..]),
         "gen" => {
             let prop = args.get(2).cloned().unwrap_or_default();
             let seed: u64 = arg_val(&args, "--seed").and_then(|s| s.parse().ok()).unwrap_or(1);
